@@ -21,7 +21,10 @@ from pyvc.contracts import (Any, Bool, Bytes, Callback, Const, Inst, Int, IntRan
 from spec.l2cap import is_l2cap_frame, le16
 
 PROP = 'C17'
-ENVIRONMENT = []
+ENVIRONMENT = [
+    'the consumer of a reassembled PDU / the DLC sink / the channel sink are recording stubs that may raise once per call (a ghost flag, so that the native replay raises too)',
+    'DLC.process_tx is used through its C20 contract (contracts/c20_rfcomm.py); the DLC and channel models, ghosts and postconditions are those of C20 / C07',
+]
 
 
 class ConsumerFailure(Exception):
@@ -55,7 +58,8 @@ def wf17(asm):
 def start_as_from_clean(self, packet, old, ghost):
     """a start fragment is handled exactly as by a clean assembler, whatever was left behind"""
     start = packet.pb_flag == 0 or packet.pb_flag == 2
-    return implies(start, _c05.asm_step(self, packet, None, 0, old.ghost.n, old.ghost.last, ghost))
+    # (asm_step is a list of clauses: one implication per clause)
+    return [implies(start, c) for c in _c05.asm_step(self, packet, None, 0, old.ghost.n, old.ghost.last, ghost)]
 
 
 contract(
@@ -65,8 +69,8 @@ contract(
     params=dict(self=Inst('bumble.hci:HCI_AclDataPacketAssembler#17'), packet=_c05.ACL),
     ghost=dict(n=Int, last=Bytes),
     requires=lambda self, packet: wf17(self),
-    ensures=lambda self, packet, old, ghost: [_c05.wf_asm(self), start_as_from_clean(self, packet, old, ghost)],
-    ensures_names=['wf(strict)', 'start-fragment-as-from-a-clean-assembler'],
+    ensures=lambda self, packet, old, ghost: [_c05.wf_asm(self)] + start_as_from_clean(self, packet, old, ghost),
+    ensures_names=['wf(strict)'] + ['start-as-from-clean:' + n for n in ['wf', 'delivered-once-iff-complete', 'delivered-bytes', 'not-delivered', 'clean-after-delivery-or-overflow', 'orphan-continuation-ignored', 'in-progress']],
     raises={
         # the consumer raised: the PDU was handed over once; the assembler still holds it (not reset), which wf17 tolerates
         ConsumerFailure: lambda self, packet, old, ghost: [wf17(self), ghost.n == old.ghost.n + 1, self.current_data is not None and ghost.last == self.current_data],
